@@ -419,6 +419,15 @@ func genExact(r *rng, c genCfg) *scenario {
 	c.types = concreteTypes
 	sc := &scenario{errOwner: map[int]int{}}
 	tIns := c.distinctLabels(r, 1+r.intn(3), r.chance(1, 3))
+	if r.chance(1, 4) {
+		// one named parameter named after its own type: declared as an embedded field of the parameter struct
+		for i, l := range tIns {
+			if l.Name != "" && l.Ty <= 3 {
+				tIns[i].Name = fmt.Sprintf("k%d", l.Ty)
+				break
+			}
+		}
+	}
 	target := &fnSpec{ID: 0, Ins: tIns, Script: "ok", OForm: "pos", HasErr: r.chance(1, 2)}
 	target.Form = formFor(r, c, tIns)
 	target.Outs = []lab{{Ty: r.intn(4)}}
